@@ -48,7 +48,15 @@ def run(ctx, model_ok):
                             "and a mesh edge: witness trimesh_ray_test_misses_interior_point, replayed by the trimesh-inside stream and recorded as a known finding",
                             "Cylinder port: scipy's ellipk/ellipe are modelled through the repo's cel0 (assumption validated by the kern stream kind `cylinder`, 1e-9); "
                             "only the single-row path of `cel` (cel0, n < 10) is modelled, not the vectorised celv",
-                            "full mu0_single: false on this tree (known finding)"]
+                            "full mu0_single: false on this tree (known finding)",
+                            "Cuboid: J = polarization on the OPEN box inflated by the relative 1e-15 (cuboid_j_is_indicator), not on the closed body; Tetrahedron: point_inside = convex hull only for "
+                            "det != 0 (tetraInside_iff_hull; a flat tetrahedron has no interior since repo fix 657dea6); "
+                            "CylinderSegment: no geometric predicate; no theorem that bhjmCylSeg returns a value (cylseg_consistent / cylseg_internal_consistent are conditional on `some`; "
+                            "Circle and Cylinder are unconditional via Props/C15: circle_consistent_total, cylinder_consistent_total)",
+                            "Dipole at its own position: no r = 0 branch in the model; dipole_consistent at x = 0 is about Lean's x/0 = 0",
+                            "in_out = 'inside' / 'outside' overrides, the rotation of J into the observer frame (composition with C03) and the polarization/magnetization setter relation over "
+                            "assignment histories (DESIGN §6 `excitation_sync`) have no model and no theorem: oracle only",
+                            "theorems stated at mu0R use 4*pi*1e-7, which is not the exported mu_0 (scipy's 1.25663706127e-6); the generic-mu theorems are the ones that matter"]
     ctx.assumptions += ["wrapper dispatch modelled by hand with the core as a parameter; cuboid masks, sphere, dipole, segment, triangle, tetrahedron, circle, cylinder ports tied by the kern stream"]
 
 
